@@ -127,3 +127,22 @@ Proof.
     by (rewrite <- !app_assoc; reflexivity).
   apply skipn_len_app. rewrite app_length, LX. reflexivity.
 Qed.
+
+(* What a definition (defun / defmacro's global part: set_global) does to a      *)
+(* binding stack: it writes the OUTERMOST slot and nothing else - every entry    *)
+(* above it is kept - and marks the symbol as having a global value.  When the   *)
+(* symbol has a global value that slot is the global value; when it has only     *)
+(* temporary bindings it is the outermost temporary one (defect D39).            *)
+Lemma replace_last_spec l v :
+  replace_last l v = match l with [] => [v] | _ => removelast l ++ [v] end.
+Proof.
+  induction l as [|x l IH]; [reflexivity|].
+  destruct l as [|y l']; [reflexivity|].
+  change (replace_last (x :: y :: l') v) with (x :: replace_last (y :: l') v).
+  rewrite IH. reflexivity.
+Qed.
+
+Theorem set_global_writes_bottom b v :
+  bitems (b_set_global b v) = match bitems b with [] => [v] | l => removelast l ++ [v] end /\
+  has_global (b_set_global b v) = true.
+Proof. split; [unfold b_set_global; cbn [bitems]; rewrite replace_last_spec; destruct (bitems b); reflexivity|reflexivity]. Qed.
